@@ -15,6 +15,11 @@ package hpack
 //   VerifC02_strings (shape B) same oracle on a template block: one literal field with concrete strings of 0..2 / 0..5
 //                    characters, raw or Huffman coded, against a symbolic max string length.
 //
+//   VerifC02_longindex (shape B) same oracle on blocks whose first representation carries its table index as a
+//                    multi-byte integer of every length readVarInt accepts (1..10 continuation bytes, any content:
+//                    padded small indices, indices up to 2^63+126, the overflow cut-off), in all four index-bearing
+//                    forms: every index outside the tables is an error, never a panic or a fabricated field.
+//
 // Sensitivity (mut.sh, quick tier), all caught:
 //   hpack.go readString `strLen > uint64(d.maxStrLen)` -> `>=`            VerifC02_strings (error iff reference rejects)
 //   hpack.go readVarInt `if m >= 63` -> `m >= 70`                         VerifC02_varint (consumes 1..10 bytes)
@@ -29,6 +34,7 @@ func init() {
 	vfRegister("VerifC02_varint", VerifC02_varint)
 	vfRegister("VerifC02_decode", VerifC02_decode)
 	vfRegister("VerifC02_strings", VerifC02_strings)
+	vfRegister("VerifC02_longindex", VerifC02_longindex)
 }
 
 // ---------------------------------------------------------------------------------------------------------------
@@ -512,5 +518,48 @@ func VerifC02_strings() {
 		vfAssert(vfAnd(maxStr != 0, vfOr(ln > maxStr, lv > maxStr)), "rejected only over the max string length")
 	}
 	vfObserve("nfields", uint64(len(r.got)))
+	vfReach("end")
+}
+
+func VerifC02_longindex() {
+	// First representation: indexed field (7-bit prefix) or literal with incremental indexing (6) / without indexing
+	// (4) / never indexed (4), the index prefix all ones, followed by an integer continuation of exactly 1..10 symbolic bytes (the complete
+	// range of readVarInt: values from the prefix mask up to 2^63 + mask - 1, zero-padded encodings, the overflow
+	// error after 9 continuation bytes), followed for the literal forms by a 1-byte raw value. Static-table hits are
+	// restricted to the boundary indices mask, mask+1 (4-bit forms: also 60, 61) to keep the string-table forks small.
+	form := vfChoice("form", 4)
+	first := []byte{0xff, 0x7f, 0x0f, 0x1f}[form]
+	mask := []uint64{127, 63, 15, 15}[form]
+	nc := vfLen("cont", 1, 10)
+	cont := vfBytes("cont", nc)
+	data := append([]byte{first}, cont...)
+	if form > 0 {
+		data = append(data, 0x01, vfU8("value"))
+	}
+	// value of the integer as far as it is below 2^14 (fork-free): restrict small indices to boundary values
+	var low uint64
+	small := true
+	for k := 0; k < nc; k++ {
+		if k < nc-1 {
+			vfAssume(cont[k]&128 != 0) // the integer spans all nc bytes (the last one may end it or not)
+		}
+		if k < 2 {
+			low += uint64(cont[k]&127) << (7 * uint(k))
+		} else {
+			small = vfAnd(small, cont[k]&127 == 0)
+		}
+	}
+	idx := mask + low
+	vfAssume(vfOr(vfNot(small), vfOr(idx > 64, vfOr(idx <= mask+1, idx >= 60))))
+
+	r := c02new(vfU32("tablesize"), 2)
+	r.config(vfU32("allowed"), 0)
+	r.limits()
+	if r.blockBoth(data) {
+		vfAssert(len(r.got) == 1, "one field emitted")
+		vfReach("valid-index")
+	}
+	vfObserve("nfields", uint64(len(r.got)))
+	vfObserve("tablesize", uint64(r.d.dynTab.size))
 	vfReach("end")
 }
